@@ -82,6 +82,15 @@ func (p *ProofU) VerifyWithChallenge(pk *gabikeys.PublicKey, reconstructedChalle
 // reconstructUcommit reconstructs U from the information in the proof and the
 // provided public key.
 func (p *ProofU) reconstructUcommit(pk *gabikeys.PublicKey) (*big.Int, error) {
+	// Proofs come from untrusted parties: refuse incomplete ones instead of dereferencing nil
+	if p.U == nil || p.C == nil || p.VPrimeResponse == nil || p.SResponse == nil {
+		return nil, errors.New("incomplete commitment proof")
+	}
+	for i, miUserResponse := range p.MUserResponses {
+		if miUserResponse == nil || i < 0 || i >= len(pk.R) {
+			return nil, errors.New("invalid user response in commitment proof")
+		}
+	}
 	// Reconstruct Ucommit
 	// U_commit = U^{-C} * S^{VPrimeResponse} * R_0^{SResponse}
 	Uc, err := common.ModPow(p.U, new(big.Int).Neg(p.C), pk.N)
@@ -189,6 +198,9 @@ func (p *ProofD) reconstructRangeProofStructures(pk *gabikeys.PublicKey) error {
 	for index, proofs := range p.RangeProofs {
 		p.cachedRangeStructures[index] = []*rangeproof.ProofStructure{}
 		for _, proof := range proofs {
+			if proof == nil {
+				return errors.New("missing range proof")
+			}
 			s, err := proof.ExtractStructure(index, pk)
 			if err != nil {
 				return err
@@ -221,6 +233,24 @@ func (p *ProofD) correctResponseSizes(pk *gabikeys.PublicKey) bool {
 // reconstructZ reconstructs Z from the information in the proof and the
 // provided public key.
 func (p *ProofD) reconstructZ(pk *gabikeys.PublicKey) (*big.Int, error) {
+	// Proofs come from untrusted parties: refuse incomplete ones and attribute indices the key
+	// has no base for, instead of dereferencing nil or indexing out of range
+	if p.C == nil || p.A == nil || p.EResponse == nil || p.VResponse == nil {
+		return nil, errors.New("incomplete disclosure proof")
+	}
+	if p.AResponses[0] == nil {
+		return nil, errors.New("disclosure proof has no response for the secret key")
+	}
+	for i, response := range p.AResponses {
+		if response == nil || i < 0 || i >= len(pk.R) {
+			return nil, errors.New("invalid attribute response in disclosure proof")
+		}
+	}
+	for i, attribute := range p.ADisclosed {
+		if attribute == nil || i < 0 || i >= len(pk.R) {
+			return nil, errors.New("invalid disclosed attribute in disclosure proof")
+		}
+	}
 	// An attribute is either disclosed or hidden, never both: otherwise the holder could
 	// report an arbitrary value x as disclosed and put the remainder m-x in the response.
 	for i := range p.ADisclosed {
